@@ -29,7 +29,7 @@ def scenarios(ctx):
         k += 1
         sc = dict(n=3, seed=seed + k, ops=6, opsafter=3, drop=0.0, dup=0.0, delay=0.0, crashnode=0, crashcycle=0,
                   crashpoint="", crash2=0, restartpeers="all", snapshotat=0, partition=0, follower=False, dropsnap=0,
-                  stepdown="", crashwhen="", initial=0, conf="", slowsnapms=0)
+                  stepdown="", crashwhen="", initial=0, conf="", slowsnapms=0, snapafter=False)
         sc.update(kw)
         out.append(sc)
     # every boundary of the ready cycle x role x a few cycle numbers (RaftHost!CrashPts x Cycle)
@@ -76,6 +76,12 @@ def scenarios(ctx):
     # the snapshot has to label the snapshot with what it contains), then a crash and a restart from it
     for j in range(2 if quick else 6):
         add(n=1 if j % 2 else 3, ops=118 + 7 * j, snapshotat=112 + 5 * j, crashnode=-1 if j % 2 == 0 else 1, crashcycle=1, crashpoint="never (the node dies idle, after the client phase)", opsafter=3)
+    # a replica restarts from its stored snapshot (which covers every membership entry), applies two more writes and
+    # snapshots again: the second snapshot describes the group as the first did (SnapshotConfStale), and a further
+    # restart (the end-of-run store read) finds it
+    for j in range(3 if quick else 9):
+        add(n=1 if j % 3 == 0 else 3, ops=6, snapshotat=5, snapafter=True, opsafter=2,
+            crashnode=1 if j % 3 == 0 else (-1 if j % 2 else -2), crashcycle=1, crashpoint="never (the node dies idle, after the client phase)")
     # a follower that was away is handed the snapshot AND the appends behind it before its ready loop looks again: one
     # Ready carries a snapshot and committed entries (the follower's earlier heartbeat response reaches the leader
     # late, its loop is held at "advanced" while both messages are stepped in) - both have to be acted on
